@@ -745,11 +745,20 @@ impl StakingCheck {
                     };
                     let bal_before = w.snapshot_balances();
                     let app = &mut w.app;
+                    // alternate between the two public ways of moving the block
+                    let use_set = (dt_nanos / 7 + step as u64) % 2 == 0;
                     let r = catch(|| {
-                        app.update_block(|b| {
+                        if use_set {
+                            let mut b = app.block_info();
                             b.time = b.time.plus_nanos(dt_nanos);
                             b.height += 1;
-                        })
+                            app.set_block(b);
+                        } else {
+                            app.update_block(|b| {
+                                b.time = b.time.plus_nanos(dt_nanos);
+                                b.height += 1;
+                            })
+                        }
                     });
                     if let Err(p) = r {
                         out.push(v("C14", &panic_sig(&p), format!("step {}: block update (+{} s) panicked: {}", step, dt, p)));
